@@ -459,3 +459,168 @@ Proof.
     + intros p i j Hp Hi Hj A B C D.
       apply (uniform_point_in_pixel s' Phi Kgauss w wd ht (q2r_pt p) i j HI' W H Hi Hj A B C D).
 Qed.
+
+(* ------------------------------------------------------------------ non-negativity needs monotonicity only *)
+(* ... so it holds outright for the normal CDF written as an integral (Spec/BvnS.Phi_int, the Phi of the runs),
+   whose monotonicity is C13's normal_cdf_integral_monotone; its range [0,1] is not proved anywhere *)
+Definition monotone (G : R -> R) : Prop := forall a b, a <= b -> G a <= G b.
+
+Lemma product_mass_nonneg_monotone (G H : R -> R -> R) :
+  (forall m, monotone (G m)) -> (forall m, monotone (H m)) -> mass_nonneg (fun mb mp x y => G mb x * H mp y).
+Proof.
+  intros HG HH mb mp x0 x1 y0 y1 Hx Hy. rewrite (mass_product (G mb) (H mp)). cbn [fst snd].
+  pose proof (HG mb _ _ Hx). pose proof (HH mp _ _ Hy). nra.
+Qed.
+
+Lemma shift_monotone Phi c m : monotone Phi -> 0 <= c -> monotone (fun x => Phi ((x - m) * c)).
+Proof. intros M Hc a b Hab. apply M. nra. Qed.
+
+Lemma inv_sqrt_nonneg s : 0 <= / sqrt s.
+Proof.
+  destruct (Req_dec (sqrt s) 0) as [E|E]; [rewrite E, Rinv_0; lra|].
+  left. apply Rinv_0_lt_compat. pose proof (sqrt_pos s). lra.
+Qed.
+
+Lemma axis_product_nonneg Phi sxx syy : monotone Phi ->
+  mass_nonneg (fun mb mp x y => Phi ((x - mb) / sqrt sxx) * Phi ((y - mp) / sqrt syy)).
+Proof.
+  intros M.
+  apply (product_mass_nonneg_monotone (fun m x => Phi ((x - m) / sqrt sxx)) (fun m y => Phi ((y - m) / sqrt syy)));
+    intros m; [apply (shift_monotone Phi (/ sqrt sxx) m M (inv_sqrt_nonneg sxx))
+              |apply (shift_monotone Phi (/ sqrt syy) m M (inv_sqrt_nonneg syy))].
+Qed.
+
+(* kernel = gaussian with a scalar sigma or a 2x2 sigma with zero covariance *)
+Definition axis_cfg (k : kernel_cfg) : Prop :=
+  match k with GaussScalar _ => True | GaussMatrix _ sxy _ => sxy = 0 | OtherKernel _ => False end.
+
+Lemma eff_kernel_nonneg_monotone thr Phi k : monotone Phi -> axis_cfg k ->
+  mass_nonneg (eff_kernel Phi (gaussian_kernelM_gen thr Phi) k).
+Proof.
+  intros M A.
+  assert (Iso : forall s, mass_nonneg (iso_kernel Phi s)) by (intros s; apply (axis_product_nonneg Phi s s M)).
+  assert (Gen : forall sxx syy, mass_nonneg (gaussian_kernelM_gen thr Phi sxx 0 syy)).
+  { intros sxx syy mb mp x0 x1 y0 y1 Hx Hy.
+    rewrite (mass_ext _ (fun x y => Phi ((x - mb) / sqrt sxx) * Phi ((y - mp) / sqrt syy)))
+      by (intros; apply gaussian_kernelM_zero_cov).
+    apply (axis_product_nonneg Phi sxx syy M mb mp); assumption. }
+  destruct k as [s|sxx sxy syy|K]; cbn [axis_cfg] in A; [apply Iso| |contradiction].
+  subst sxy. cbn [eff_kernel]. destruct (Req_EM_T sxx syy); [destruct (Req_EM_T 0 0)|]; [apply Iso|apply Gen|apply Gen].
+Qed.
+
+Lemma image_nonneg_monotone thr Phi skew w k bp pp dgm :
+  monotone Phi -> axis_cfg k -> nondecr bp -> nondecr pp ->
+  (forall q, In q dgm -> 0 <= w (fst (bp_of skew q)) (snd (bp_of skew q))) ->
+  Forall (Forall (fun v => 0 <= v)) (transform_one Phi (gaussian_kernelM_gen thr Phi) skew w k bp pp dgm).
+Proof.
+  intros M A Nb Np Hw. rewrite transform_one_spec.
+  apply spec_pixels_nonneg; try assumption; [apply eff_kernel_nonneg_monotone; assumption|].
+  intros pt Hpt. apply in_to_bp in Hpt. destruct Hpt as [q [I ->]]. apply Hw, I.
+Qed.
+
+Lemma image_nonneg_Phi_int thr skew w k bp pp dgm :
+  axis_cfg k -> nondecr bp -> nondecr pp ->
+  (forall q, In q dgm -> 0 <= w (fst (bp_of skew q)) (snd (bp_of skew q))) ->
+  Forall (Forall (fun v => 0 <= v)) (transform_one Phi_int (gaussian_kernelM_gen thr Phi_int) skew w k bp pp dgm).
+Proof. apply image_nonneg_monotone. exact Phi_int_mono. Qed.
+
+(* ------------------------------------------------------------------ where the weight of one point goes *)
+Lemma px_b_ordered (s : st) i : Inv s -> fst (px_b s i) <= snd (px_b s i).
+Proof. intros (Hps & _). apply Qlt_Rlt in Hps. rewrite Q2R_0g in Hps. unfold px_b. cbn [fst snd]. nra. Qed.
+Lemma px_p_ordered (s : st) j : Inv s -> fst (px_p s j) <= snd (px_p s j).
+Proof. intros (Hps & _). apply Qlt_Rlt in Hps. rewrite Q2R_0g in Hps. unfold px_p. cbn [fst snd]. nra. Qed.
+
+Lemma INR_gap i i' : (i + 2 <= i')%nat -> INR i + 2 <= INR i'.
+Proof. intros H. apply le_INR in H. rewrite plus_INR in H. simpl in H. lra. Qed.
+
+(* one axis: a box of width <= 2 ps around a point of pixel i misses every pixel i' with |i' - i| >= 2 *)
+Lemma overlap_far lo ps x wd (i i' : nat) : 0 < ps -> 0 < wd -> wd <= 2 * ps ->
+  lo + INR i * ps <= x < lo + (INR i + 1) * ps -> (i' + 2 <= i \/ i + 2 <= i')%nat ->
+  overlap (x - wd / 2) (x + wd / 2) (lo + INR i' * ps) (lo + (INR i' + 1) * ps) = 0.
+Proof.
+  intros Hps W Wle Hx Far. apply overlap_disjoint; try nra.
+  destruct Far as [F|F]; apply INR_gap in F; [left|right]; nra.
+Qed.
+
+(* uniform kernel of width, height <= 2 ps: a point of pixel (i, j) contributes nothing outside the 3 x 3 block
+   around (i, j) *)
+Lemma uniform_point_localised (s : st) Phi Kgauss w wd ht (pt : point) i j i' j' :
+  Inv s -> 0 < wd -> 0 < ht -> wd <= 2 * Q2R (ImagerM.psz s) -> ht <= 2 * Q2R (ImagerM.psz s) ->
+  fst (px_b s i) <= fst pt < snd (px_b s i) -> fst (px_p s j) <= snd pt < snd (px_p s j) ->
+  (Z.of_nat i' < ImagerM.resw s)%Z -> (Z.of_nat j' < ImagerM.resh s)%Z ->
+  (i' + 2 <= i \/ i + 2 <= i')%nat \/ (j' + 2 <= j \/ j + 2 <= j')%nat ->
+  nth j' (nth i' (transform_one Phi Kgauss false w (OtherKernel (uniform_kernelM wd ht)) (bpntsR s) (ppntsR s) [pt]) []) 0
+  = 0.
+Proof.
+  intros HI W H Wle Hle Cb Cp Hi Hj Far.
+  destruct (image_on_state s HI Phi Kgauss false w (OtherKernel (uniform_kernelM wd ht)) [pt]) as (_ & _ & _ & P).
+  rewrite (P i' j' Hi Hj). cbn [to_birth_pers map sumR fold_right eff_kernel].
+  pose proof (px_b_ordered s i' HI) as Ob. pose proof (px_p_ordered s j' HI) as Op.
+  pose proof HI as (Hps & _). apply Qlt_Rlt in Hps. rewrite Q2R_0g in Hps.
+  unfold px_b, px_p in *. cbn [fst snd] in *.
+  rewrite uniform_mass_closed by assumption.
+  destruct Far as [F|F].
+  - rewrite (overlap_far _ _ _ _ i i' Hps W Wle Cb F). unfold Rdiv. ring.
+  - rewrite (overlap_far _ _ _ _ j j' Hps H Hle Cp F). unfold Rdiv. ring.
+Qed.
+
+(* ---- a point mass: the CDF of the unit mass at (mb, mp), continuous from the left, so that the mass of
+   a rectangle is 1 iff x0 <= mb < x1 and y0 <= mp < y1 - the half-open pixels of C12's `locate` *)
+Definition point_mass_cdf : kernel :=
+  fun mb mp x y => (if Rlt_dec mb x then 1 else 0) * (if Rlt_dec mp y then 1 else 0).
+
+Lemma step_diff m x0 x1 : x0 <= x1 ->
+  (if Rlt_dec m x1 then 1 else 0) - (if Rlt_dec m x0 then 1 else 0)
+  = if Rle_dec x0 m then (if Rlt_dec m x1 then 1 else 0) else 0.
+Proof. intros H. destruct (Rlt_dec m x1), (Rlt_dec m x0), (Rle_dec x0 m); lra. Qed.
+
+Lemma point_mass_in x0 x1 y0 y1 mb mp : x0 <= mb < x1 -> y0 <= mp < y1 ->
+  mass (point_mass_cdf mb mp) (x0, x1) (y0, y1) = 1.
+Proof.
+  intros Hx Hy. unfold point_mass_cdf.
+  rewrite (mass_product (fun x => if Rlt_dec mb x then 1 else 0) (fun y => if Rlt_dec mp y then 1 else 0)).
+  cbn [fst snd]. rewrite !step_diff by lra.
+  destruct (Rle_dec x0 mb), (Rlt_dec mb x1), (Rle_dec y0 mp), (Rlt_dec mp y1); lra.
+Qed.
+
+Lemma point_mass_out x0 x1 y0 y1 mb mp : x0 <= x1 -> y0 <= y1 ->
+  (mb < x0 \/ x1 <= mb) \/ (mp < y0 \/ y1 <= mp) ->
+  mass (point_mass_cdf mb mp) (x0, x1) (y0, y1) = 0.
+Proof.
+  intros Hx Hy Out. unfold point_mass_cdf.
+  rewrite (mass_product (fun x => if Rlt_dec mb x then 1 else 0) (fun y => if Rlt_dec mp y then 1 else 0)).
+  cbn [fst snd]. rewrite !step_diff by lra.
+  destruct (Rle_dec x0 mb), (Rlt_dec mb x1), (Rle_dec y0 mp), (Rlt_dec mp y1); lra.
+Qed.
+
+Lemma INR_gap1 i i' : (i < i')%nat -> INR i + 1 <= INR i'.
+Proof. intros H. apply le_INR in H. rewrite S_INR in H. exact H. Qed.
+
+Lemma point_mass_on_state (s : st) Phi Kgauss w (x y : Q) i' j' : Inv s ->
+  (ImagerM.blo s <= x)%Q -> (x < ImagerM.bhi s)%Q -> (ImagerM.plo s <= y)%Q -> (y < ImagerM.phi s)%Q ->
+  (Z.of_nat i' < ImagerM.resw s)%Z -> (Z.of_nat j' < ImagerM.resh s)%Z ->
+  nth j' (nth i' (transform_one Phi Kgauss false w (OtherKernel point_mass_cdf) (bpntsR s) (ppntsR s)
+                    [(Q2R x, Q2R y)]) []) 0
+  = if ((Z.of_nat i' =? ImagerM.locate ImagerM.QNum (ImagerM.bpnts s) x)%Z
+        && (Z.of_nat j' =? ImagerM.locate ImagerM.QNum (ImagerM.ppnts s) y)%Z)%bool
+    then w (Q2R x) (Q2R y) else 0.
+Proof.
+  intros HI A B C D Hi Hj.
+  destruct (located_pixel_contains s x y HI A B C D) as (i & j & Li & _ & Lj & _ & Cb & Cp).
+  rewrite Li, Lj.
+  destruct (image_on_state s HI Phi Kgauss false w (OtherKernel point_mass_cdf) [(Q2R x, Q2R y)]) as (_ & _ & _ & P).
+  rewrite (P i' j' Hi Hj). cbn [to_birth_pers map sumR fold_right eff_kernel fst snd].
+  pose proof (px_b_ordered s i' HI) as Ob. pose proof (px_p_ordered s j' HI) as Op.
+  pose proof HI as (Hps & _). apply Qlt_Rlt in Hps. rewrite Q2R_0g in Hps.
+  destruct (Z.eqb_spec (Z.of_nat i') (Z.of_nat i)) as [Ei|Ei];
+    [destruct (Z.eqb_spec (Z.of_nat j') (Z.of_nat j)) as [Ej|Ej]|]; cbn [andb].
+  - apply Nat2Z.inj in Ei, Ej. subst i' j'.
+    destruct (px_b s i) as [x0 x1], (px_p s j) as [y0 y1]. cbn [fst snd] in *.
+    rewrite point_mass_in by assumption. lra.
+  - assert (N : (j' < j \/ j < j')%nat) by lia.
+    unfold px_b, px_p in *. cbn [fst snd] in *. rewrite point_mass_out; [lra|assumption|assumption|].
+    right. destruct N as [N|N]; apply INR_gap1 in N; [right|left]; nra.
+  - assert (N : (i' < i \/ i < i')%nat) by lia.
+    unfold px_b, px_p in *. cbn [fst snd] in *. rewrite point_mass_out; [lra|assumption|assumption|].
+    left. destruct N as [N|N]; apply INR_gap1 in N; [right|left]; nra.
+Qed.
